@@ -124,9 +124,14 @@ class SimSocket:
     def close(self):
         net = self.net
         net._log(self, "close", None)
+        strike = net._close_fault(self) if (net.count_close and self.open) else None
+        if strike == "before":
+            raise net.plan.exc()      # interrupted before the descriptor was released: the socket is still open
         if self.open:
             self.open = False
             net.closed_count[self.sid] = net.closed_count.get(self.sid, 0) + 1
+        if strike == "after":
+            raise net.plan.exc()
         net._env_fault("close", self)
 
     # -- data
@@ -303,6 +308,7 @@ class NetSim:
         self.closed_count = {}
         self.seq = 0
         self.ncalls = 0                   # counted socket calls (connect/sendall/recv)
+        self.count_close = False          # C10: close() of an open socket is counted (and interruptible) as well
         self.ncmds = 0
         self.nrecv = 0
         self.delivered_total = 0
@@ -389,6 +395,20 @@ class NetSim:
                 raise plan.exc()
             return plan.kind
         return F_NONE
+
+    def _close_fault(self, sock):
+        """C10: close() of an open socket is a counted socket call too, and an interruption can strike in it"""
+        plan = self.plan
+        idx = self.ncalls
+        self.ncalls += 1
+        if plan is None or plan.fired or plan.exc is None:
+            return None
+        if idx == plan.at:
+            plan.fired = True
+            plan.fired_where = ("close", idx)
+            sock.failed_call = True
+            return "after" if plan.after else "before"
+        return None
 
     def _env_fault(self, name, sock):
         ep = self.env_plan
